@@ -308,6 +308,8 @@ def run(ctx):
             badf = "%s is %r / %r after initialisation (specification: an empty list for each generator)" % (attr, a, b)
         elif a is b:
             badf = "two generators are given the SAME list object as %s: _state_push appends and _state_pop pops in parameter order, so with a shared stack the generators get each other's saved values back" % attr
+    if isinstance(g1.attrs.get("_saved_Dynamic_last"), list) and g1.attrs.get("_saved_Dynamic_last") is g1.attrs.get("_saved_Dynamic_time"):
+        badf = badf or "one generator's two save stacks are the same list object: saved values and saved times are interleaved and _state_pop restores a time as the value"
     if g1.attrs.get("_Dynamic_last", "missing") is not None or g1.attrs.get("_Dynamic_time", "missing") != -1:
         badf = badf or "the initial cache is (_Dynamic_last=%r, _Dynamic_time=%r), specification (None, -1)" % (g1.attrs.get("_Dynamic_last", "missing"), g1.attrs.get("_Dynamic_time", "missing"))
     if badf:
